@@ -1465,13 +1465,15 @@ fn c08_lookups() {
     for (pi, (sizes, nlook)) in plans.iter().enumerate() {
         let tag = format!("tables of sizes {sizes:?} with {nlook:?} lookups");
         // table t: key i*(t+2)+t  ->  value with duplicates, 16-bit
-        let tables: Vec<Vec<(u16, u16)>> = sizes.iter().enumerate().map(|(t, &sz)| (0..sz).map(|i| ((i * (t + 2) + t) as u16, (((i * 37 + 11 * t + pi) % 23) as u16) * 1000 + t as u16)).collect()).collect();
+        let mut tables: Vec<Vec<(u16, u16)>> = sizes.iter().enumerate().map(|(t, &sz)| (0..sz).map(|i| ((i * (t + 2) + t) as u16, (((i * 37 + 11 * t + pi) % 23) as u16) * 1000 + t as u16)).collect()).collect();
+        // tables are arbitrary lists of pairs: for a third of the plans the entries are not in increasing key order
+        if pi % 3 != 0 { for tb in tables.iter_mut() { let n = tb.len(); for i in 0..n { let j = (i * 7 + 3) % n; tb.swap(i, j); } if n > 2 { tb.reverse(); tb.swap(0, n / 2); } } }
         let built = catch_unwind(AssertUnwindSafe(|| {
             let mut b = CircuitBuilder::<F, D>::new(CircuitConfig::standard_recursion_config());
             let idxs: Vec<usize> = tables.iter().map(|t| b.add_lookup_table_from_pairs(Arc::new(t.clone()))).collect();
             let mut ins = Vec::new(); let mut outs = Vec::new();
             for (t, &nl) in nlook.iter().enumerate() { for j in 0..nl {
-                let x = b.add_virtual_target(); let o = b.add_lookup_from_index(x, idxs[t]); b.register_public_input(o);
+                let x = b.add_virtual_target(); let o = b.add_lookup_from_index(x, idxs[t]);   // NOT a public input: nothing but the lookup argument may depend on the looked-up pair
                 // heavy repetition for odd plans, spread otherwise; the last entries of large tables stay unused
                 let e = if pi % 2 == 1 { (j / 9) % sizes[t] } else { (j * 5 + 1) % sizes[t] };
                 ins.push((x, t, e)); outs.push(o);
@@ -1516,6 +1518,27 @@ fn c08_lookups() {
                     cases += 1;
                     let o = a.outcome();
                     if o == "ACCEPTED" || o == "verifier PANICKED" { bad.push(format!("{tag}: lookup {j} of table {t}: pair ({w}, {val}) is not in the table -> {o}")); }
+                }
+            }
+            // the declared table itself is binding: rewriting a table row in the trace (entry (key, v) -> (key, v')) together with a lookup of
+            // that key that now returns v' must not be accepted, for EVERY table (first, middle, last one alike)
+            {
+                let lw = data.prover_only.lookup_rows[t].clone();
+                let k = start;
+                let (_, _, e) = ins[k];
+                let (key, val) = tables[t][e];
+                let (row, slot) = (lw.first_lut_gate - e / 26, e % 26);
+                let tw_in = crate::iop::target::Target::wire(row, 3 * slot);
+                let tw_out = crate::iop::target::Target::wire(row, 3 * slot + 1);
+                if base.get(tw_in) == F::from_canonical_u64(key as u64) && base.get(tw_out) == F::from_canonical_u64(val as u64) {
+                    let w = F::from_canonical_u64(val as u64 + 7);
+                    let mut a = Adv { data: &data, values: base.values.clone(), map: base.map.clone() };
+                    a.set_class(tw_out, w);
+                    // every lookup of that key into this table returns the rewritten value
+                    for (kk, &(_, t2, e2)) in ins.iter().enumerate() { if t2 == t && tables[t][e2].0 == key { a.set_class(outs[kk], w); } }
+                    cases += 1;
+                    let o = a.outcome();
+                    if o == "ACCEPTED" || o == "verifier PANICKED" { bad.push(format!("{tag}: table {t}: row of entry ({key}, {val}) rewritten to ({key}, {}) in the trace and looked up -> {o}", val as u64 + 7)); }
                 }
             }
             start += nl;
